@@ -97,3 +97,88 @@ def _env_frame(ctx, st, e, prev, lhs, v):
     e, lhs = lift(e, TSym).t, lift(lhs, TSym).t
     u = UPD(prev.t, lhs, lift(v, TReal).t)
     return SV(TBool, z3.And(z3.Implies(e == lhs, DEN(e, u) == lift(v, TReal).t), z3.Implies(NOTFREE(lhs, e), DEN(e, u) == DEN(e, prev.t))))
+
+
+# ------------------------------------------------------------------------------------------------------------------
+# L3: the statements of rhs_emit (definitions interleaved with `values[slot] = <derivative symbol>`) leave, in slot
+# count_sd(SA, i), the value of the i-th assignment's expression whenever that assignment is a state derivative.
+# An array cell values[n] is a location of the same environment; ASSUMED: distinct cells of one array do not alias.
+# ------------------------------------------------------------------------------------------------------------------
+_prev_notfree = core.TERM_AXIOMS.get("notfree")
+
+
+def _notfree_cells(app):
+    out = _prev_notfree(app) if _prev_notfree else []
+    s, e = app.children()
+    if z3.is_app(s) and z3.is_app(e) and s.decl().name() == "sp.Indexed" and e.decl().name() == "sp.Indexed":
+        bs, i_s = s.children()
+        be, i_e = e.children()
+        out = out + [z3.Implies(z3.Or(bs != be, i_s != i_e), app)]
+    return out
+
+
+core.TERM_AXIOMS["notfree"] = _notfree_cells
+
+defspec("renv", {"SA": "Seq[Atom]", "env0": "Env", "j": "Int"}, "Env", """
+def renv(SA, env0, j):
+    if j <= 0:
+        return env0
+    prev = renv(SA, env0, j - 1)
+    x = SA[j - 1]
+    e1 = upd(prev, x.symbol, den(x.expr, prev))
+    if is_sd(x):
+        return upd(e1, Indexed("values", count_sd(SA, j - 1)), den(x.symbol, e1))
+    return e1
+""")
+
+# hypotheses about position i (prefix-recursive conjunctions over the later positions p in [i, j)):
+# vfree_i: the cells written at or after i occur neither in symbol(SA[i]) nor in expr(SA[i])
+# cfree_i: the symbols defined after i are not the cell that holds derivative i
+defspec("vfree_i", {"SA": "Seq[Atom]", "i": "Int", "j": "Int"}, "Bool", """
+def vfree_i(SA, i, j):
+    if j <= i:
+        return True
+    return vfree_i(SA, i, j - 1) and implies(is_sd(SA[j - 1]),
+        notfree(Indexed("values", count_sd(SA, j - 1)), SA[i].symbol) and notfree(Indexed("values", count_sd(SA, j - 1)), SA[i].expr))
+""")
+defspec("cfree_i", {"SA": "Seq[Atom]", "i": "Int", "j": "Int"}, "Bool", """
+def cfree_i(SA, i, j):
+    if j <= i + 1:
+        return True
+    return cfree_i(SA, i, j - 1) and notfree(SA[j - 1].symbol, Indexed("values", count_sd(SA, i)))
+""")
+
+# the same for the explicit Euler statements: values[slot] = state + dt * derivative
+defspec("renv_e", {"SA": "Seq[Atom]", "dt": "Sym", "vname": "Name", "env0": "Env", "j": "Int"}, "Env", """
+def renv_e(SA, dt, vname, env0, j):
+    if j <= 0:
+        return env0
+    prev = renv_e(SA, dt, vname, env0, j - 1)
+    x = SA[j - 1]
+    e1 = upd(prev, x.symbol, den(x.expr, prev))
+    if is_sd(x):
+        return upd(e1, Indexed(vname, count_sd(SA, j - 1)), den(x.state.symbol + dt * x.symbol, e1))
+    return e1
+""")
+defspec("vfree_e", {"SA": "Seq[Atom]", "vname": "Name", "i": "Int", "j": "Int"}, "Bool", """
+def vfree_e(SA, vname, i, j):
+    if j <= i:
+        return True
+    return vfree_e(SA, vname, i, j - 1) and implies(is_sd(SA[j - 1]),
+        notfree(Indexed(vname, count_sd(SA, j - 1)), SA[i].symbol) and notfree(Indexed(vname, count_sd(SA, j - 1)), SA[i].expr))
+""")
+defspec("cfree_e", {"SA": "Seq[Atom]", "vname": "Name", "i": "Int", "j": "Int"}, "Bool", """
+def cfree_e(SA, vname, i, j):
+    if j <= i + 1:
+        return True
+    return cfree_e(SA, vname, i, j - 1) and notfree(SA[j - 1].symbol, Indexed(vname, count_sd(SA, i)))
+""")
+# inputs_e: neither a definition nor an output cell overwrites the state symbol of derivative i or the step symbol dt
+defspec("inputs_e", {"SA": "Seq[Atom]", "dt": "Sym", "vname": "Name", "i": "Int", "j": "Int"}, "Bool", """
+def inputs_e(SA, dt, vname, i, j):
+    if j <= 0:
+        return True
+    return (inputs_e(SA, dt, vname, i, j - 1) and notfree(SA[j - 1].symbol, SA[i].state.symbol) and notfree(SA[j - 1].symbol, dt)
+            and implies(is_sd(SA[j - 1]), notfree(Indexed(vname, count_sd(SA, j - 1)), SA[i].state.symbol)
+                        and notfree(Indexed(vname, count_sd(SA, j - 1)), dt)))
+""")
